@@ -276,6 +276,22 @@ class PluginGen(object):
                 self.event(rng.choice(OTHER_EVENTS))
             elif roll < 0.12:
                 self.act_settings()
+        if known and self.exactOnly and rng.random() < 0.2:
+            # the print ends while the tool is inside a region and no after-print script runs
+            # before the end event: the episode is still open when the plugin goes idle, and an
+            # after-print hook that arrives then has to be ignored
+            reg = rng.choice(known)
+            if reg["t"] == "rect":
+                tx, ty = (reg["x1"] + reg["x2"]) // 2, (reg["y1"] + reg["y2"]) // 2
+            else:
+                tx, ty = reg["cx"], reg["cy"]
+            self.steps.append(("g", "G90", {}))
+            self.steps.append(("g", "G1 X%s Y%s" % (fmt_mm(tx), fmt_mm(ty)), {}))
+            self.event(rng.choice(END_EVENTS))
+            self.steps.append(("hook", "gcode", "afterPrintDone"))
+            for step in steps[cut:cut + rng.randint(0, 3)]:
+                self.steps.append(step)
+            return
         if rng.random() < 0.55:
             self.steps.append(("hook", "gcode", "afterPrintDone"))
             if rng.random() < 0.3:
